@@ -85,31 +85,39 @@ def speedAlgT (g : GOps V) (i : Nat) : M σ V :=
     let n ← size
     if i = n - 1 then speedBetweenT g (n - 1) (n - 2) else speedBetweenT g (i + 1) (i - 1)
 
+/-- the loop of `addAnalyticalFeature`: `for i: try value = algorithm(self, i) except IndexError: value = NAN; features[idAF] = value` -/
+def afLoop (o : Ops V) (alg : Nat → M σ V) (name : String) (n : Nat) : M σ Unit :=
+  M.forEach (List.range n) fun i => M.catchIndex (alg i) o.nan >>= fun v => setObs name i v
+
 /-- `Track.addAnalyticalFeature(algorithm, name)` for an arbitrary algorithm `i ↦ value` that reads through the
-Track API: create-if-absent, then `for i: try value = algorithm(self, i) except IndexError: value = NAN;
-features[idAF] = value`, return the column -/
-def addAFfn (o : Ops V) (alg : Nat → M σ V) (name : String) : M σ (List V) := do
+Track API: create-if-absent, the loop, return the column -/
+def addAFfn (o : Ops V) (alg : Nat → M σ V) (name : String) : M σ (List V) :=
   if reserved name then M.throw .reserved
   else
-    if !(← has name) then create name (.scalar o.zero)
-    let n ← size
-    M.forEach (List.range n) fun i => do
-      let v ← M.catchIndex (alg i) o.nan
-      setObs name i v
+    has name >>= fun b =>
+    (if !b then create name (.scalar o.zero) else pure ()) >>= fun _ =>
+    size >>= fun n =>
+    afLoop o alg name n >>= fun _ =>
     get o name
 
+/-- `if not track.hasAnalyticalFeature("ds"): track.addAnalyticalFeature(ds, "ds")` -/
+def ensureDsT (g : GOps V) : M σ Unit := do
+  let b ← has "ds"
+  if !b then addAFfn g.toOps (dsAlgT g) "ds" >>= fun _ => pure () else pure ()
+
+/-- `if not track.hasAnalyticalFeature("abs_curv"): track.operate(Operator.INTEGRATOR, "ds", "abs_curv")` -/
+def ensureAbsCurvT (g : GOps V) : M σ Unit := do
+  let b ← has "abs_curv"
+  if !b then unaryVoid g.toOps .integrator "ds" "abs_curv" >>= fun _ => pure () else pure ()
+
 /-- `cinematics.computeAbsCurv(track)` -/
-def computeAbsCurvT (g : GOps V) : M σ (List V) := do
-  if !(← has "ds") then
-    let _ ← addAFfn g.toOps (dsAlgT g) "ds"
-  if !(← has "abs_curv") then
-    let _ ← unaryVoid g.toOps .integrator "ds" "abs_curv"
-  remove "ds"
-  get g.toOps "abs_curv"
+def computeAbsCurvT (g : GOps V) : M σ (List V) :=
+  ensureDsT g >>= fun _ => ensureAbsCurvT g >>= fun _ => remove "ds" >>= fun _ => get g.toOps "abs_curv"
 
 /-- `cinematics.estimate_speed(track)` = `Track.estimate_speed()` (kernel None) -/
 def estimateSpeedT (g : GOps V) : M σ (List V) := do
-  if (← has "speed") then get g.toOps "speed" else addAFfn g.toOps (speedAlgT g) "speed"
+  let b ← has "speed"
+  if b then get g.toOps "speed" else addAFfn g.toOps (speedAlgT g) "speed"
 
 /-- `Track.length()`: `s = 0; for i in 1..n-1: s += getObs(i-1).distanceTo(getObs(i))` -/
 def lengthT (g : GOps V) : M σ V := do
